@@ -21,6 +21,10 @@ from yatiml.util import ScalarType, scalar_type_to_tag
 _Any = NewType('_Any', int)
 
 
+# Used by Node.get_value() to obtain exactly the value a load would construct
+_scalar_constructor = yaml.constructor.SafeConstructor()
+
+
 class Node:
     """A wrapper class for yaml Nodes that provides utility functions.
 
@@ -89,11 +93,14 @@ class Node:
         if self.yaml_node.tag == 'tag:yaml.org,2002:str':
             return str(self.yaml_node.value)
         if self.yaml_node.tag == 'tag:yaml.org,2002:int':
-            return int(self.yaml_node.value)
+            return cast(int, _scalar_constructor.construct_yaml_int(
+                self.yaml_node))
         if self.yaml_node.tag == 'tag:yaml.org,2002:float':
-            return float(self.yaml_node.value)
+            return cast(float, _scalar_constructor.construct_yaml_float(
+                self.yaml_node))
         if self.yaml_node.tag == 'tag:yaml.org,2002:bool':
-            return self.yaml_node.value in ['TRUE', 'True', 'true']
+            return cast(bool, _scalar_constructor.construct_yaml_bool(
+                self.yaml_node))
         if self.yaml_node.tag == 'tag:yaml.org,2002:null':
             return None
         raise RuntimeError('This node with tag "{}" is not of the right type'
